@@ -185,7 +185,10 @@ class Driver:
         env = _ENV[0]
         self.session = len(env.links)
         env.links.append(self)
-        self.needs_resending = env.nr[self.session]
+        nr = env.nr[self.session]
+        # (flag the driver object carries, whether a link of that kind fails to guarantee delivery): the same thing unless the
+        # flag is read from a real driver class (mode 'drivers')
+        self.needs_resending, self.expect_resend = nr if isinstance(nr, tuple) else (nr, nr)
         self.sent = []          # (packet object, closed?, header, data) at the time of transmission
         self.seen = 0
         self.closed = False
@@ -261,6 +264,17 @@ class CheckedLock:
 CONCRETE = [(2, 1, (1,)), (2, 1, (1, 7)), (2, 1, (1, 7, 9))]
 
 
+_REAL_DRIVERS = [('cflib.crtp.radiodriver', 'RadioDriver', True), ('cflib.crtp.usbdriver', 'UsbDriver', False),
+                 ('cflib.crtp.serialdriver', 'SerialDriver', False), ('cflib.crtp.tcpdriver', 'TcpDriver', False),
+                 ('cflib.crtp.crtpdriver', 'CRTPDriver', True)]
+
+
+def _real_driver_flag(k):
+    import importlib
+    mod, cls, _ = _REAL_DRIVERS[k]
+    return getattr(importlib.import_module(mod), cls)().needs_resending
+
+
 def h_history(sym):
     B = sym.B
     P, NEV, MAXS = B['p'], B['events'], B.get('sessions', 2)
@@ -269,7 +283,13 @@ def h_history(sym):
     _install(env)
     nr_mode = B.get('nr', 'sym')
     for s in range(MAXS + 1):       # +1: the epilogue may open one more session
-        env.nr.append(sym.bool(f'nr{s}') if nr_mode == 'sym' else bool(nr_mode))
+        if nr_mode == 'drivers':
+            # the flag comes from the real driver classes; what is expected comes from the kind of link: the radio (until
+            # safelink is confirmed, C01) and the abstract base do not guarantee delivery, USB / UART / TCP do
+            k = sym.choice(f'driver{s}', len(_REAL_DRIVERS))
+            env.nr.append((_real_driver_flag(k), _REAL_DRIVERS[k][2]))
+        else:
+            env.nr.append(sym.bool(f'nr{s}') if nr_mode == 'sym' else bool(nr_mode))
     # ---- requests
     reqs = []
     timeouts = B.get('timeouts', (None,))
@@ -414,13 +434,13 @@ def h_history(sym):
         assert len(tx) == 1 and tx[0][1] is pk and tx[0][0] is ln, ('O1: a submitted packet is transmitted exactly once', len(tx))
         assert tx[0][2] == r['hdr'] and tx[0][3] == r['data']
         r['tx'] = 1
-        if ln.needs_resending and fast:
+        if ln.expect_resend and fast:
             # answered before the send call returned: the request is not pending; whatever timer exists must never retransmit
             # (checked when the remaining live timers are fired)
             r['pending'] = False
             r['answered'] = True
             sym.goal('answered-during-send')
-        elif ln.needs_resending:
+        elif ln.expect_resend:
             mine = [t for t in tm if t.live()]
             assert len(mine) == 1 and len(tm) == 1, ('O1: exactly one retry timer per request on a resending link', len(tm))
             if B.get('check_interval', True):
@@ -616,6 +636,11 @@ HARNESSES = DELAYED + [
             thorough=dict(p=2, concrete=True, events=6, kinds=(SEND, FIRE, RX, ERROR, OPEN), nr='sym', sessions=3),
             timeout=(290, 1700), goals=_SESSION_GOALS + ('link-error',)),
     # both concerns at once, small: symbolic pattern and packets with close / open / link error
+    Harness('sessions[real driver flags]', h_history,
+            quick=dict(p=1, concrete=True, events=4, kinds=(SEND, FIRE, RX, CLOSE, OPEN), nr='drivers', sessions=2),
+            timeout=(290, 1700), goals=('retransmitted', 'no-timer-on-reliable-link', 'reopened'),
+            note='needs_resending is read from a freshly constructed real driver (radio, USB, UART, TCP, abstract base; solver-chosen '
+                 'per session); retransmission is expected exactly on the kinds of link that do not guarantee delivery'),
     Harness('sessions[symbolic]', h_history,
             quick=dict(p=1, events=4, kinds=ALL, nr='sym', sessions=2, send_closed=True),
             thorough=dict(p=1, events=5, kinds=ALL, nr='sym', sessions=2, send_closed=True),
